@@ -413,13 +413,13 @@ class FnBlock:
 def render_fn(repo: Repo, fb: FnBlock, rules: Counter, info: dict, canary: bool = False) -> str:
     sig, body, line = repo.find_fn(fb.rel, fb.impl, fb.name, fb.nth)
     sig = strip_sig(sig)
+    if fb.rename:
+        sig = re.sub(r'\bfn\s+' + re.escape(fb.name) + r'(?![A-Za-z0-9_])', 'fn ' + fb.rename, sig, count=1)
     for (a, b) in fb.sigsub:
         if a not in sig:
             raise LostAnchor(f'signature text `{a}` of fn {fb.name} not found')
         sig = sig.replace(a, b)
         rules['S1'] += 1
-    if fb.rename:
-        sig = re.sub(r'\bfn\s+' + re.escape(fb.name) + r'\b', 'fn ' + fb.rename, sig, count=1)
     sig = name_return(sig, fb.ret, rules)
     info['functions'].append({'fn': fb.name, 'impl': fb.impl.strip(), 'file': fb.rel, 'line': line,
                               'trusted': fb.trusted})
@@ -434,8 +434,10 @@ def render_fn(repo: Repo, fb: FnBlock, rules: Counter, info: dict, canary: bool 
         return '\n'.join(out) + '\n'
     body = apply_rewrites(body, rules)
     # S3 / F1: explicit textual substitutions declared in the template (each must occur)
-    for (a, b) in fb.bodysub:
+    for (a, b, optional) in fb.bodysub:
         if a not in body:
+            if optional:
+                continue
             raise LostAnchor(f'body text `{a}` of fn {fb.name} not found')
         rules['F1'] += body.count(a)
         body = body.replace(a, b)
@@ -617,10 +619,14 @@ def build_unit(template_path: str, repo_root: str, verif_root: str, canary: bool
                 elif s2.startswith('//@attr '):
                     flush()
                     fb.attrs.append(s2[len('//@attr '):])
+                elif s2.startswith('//@bodysub? '):
+                    flush()
+                    a, b = s2[len('//@bodysub? '):].split('=>')
+                    fb.bodysub.append((a.strip(), b.strip(), True))
                 elif s2.startswith('//@bodysub '):
                     flush()
                     a, b = s2[len('//@bodysub '):].split('=>')
-                    fb.bodysub.append((a.strip(), b.strip()))
+                    fb.bodysub.append((a.strip(), b.strip(), False))
                 elif s2.startswith('//@sigsub '):
                     flush()
                     a, b = s2[len('//@sigsub '):].split('=>')
